@@ -15,6 +15,10 @@ P('C19','value-flow (wiring) rules on SSA + dominance',
   "Decides, for every path and call site, that the configured upstream limits are wired into every http.Transport the proxy can use (setter stores its parameter; NewTransport pairs each limit field with its config field; main sets the config before any transport is built; transports are NewTransport results selected per-route > skip-verify > default; the reverse proxy's error handler maps net.Error timeouts to 504). The 504-within-the-timeout behaviour itself is net/http's and is not decided.",
   COMMON_NOTE)
 
+P('C12','gate dominance on the SSA control-flow graph + decision-structure rules',
+  "Decides on every path that each upstream-contact site (and the redirect answer) in HTTPProxy.ServeHTTP is dominated by AccessDeniedHTTP()==false and Authorized()==true on the looked-up target, that every dial in every tcp.Handler is dominated by AccessDeniedTCP()==false on the target whose address is dialled, that the deny edges answer 403/401 and return, that the decision functions fail closed (nil peer IP with rules, unknown scheme, unparsable rule => deny-all) and that denyByIP's allow/deny structure and the X-Forwarded-For loop cannot admit early. CIDR arithmetic and credential comparison are library behaviour and not decided.",
+  COMMON_NOTE)
+
 checks=[]; na=[]
 for p in props:
     id=p['id']
